@@ -568,8 +568,24 @@ func c18pool(c *core.Ctx) {
 		// no shared counter in here: the race detector treats atomics as
 		// synchronisation, and a counter touched by every Get would order the
 		// callers and hide races between them
-		pools[0].New = func() *tok { return &tok{minted: true, home: 0} }
-		pools[1].New = func() *tok { return &tok{minted: true, home: 1} }
+		// New may be fast, may yield, or may take a while (20..200 us): two Get calls that
+		// both miss must both call it and get an item each, however long it runs
+		slow := r.Intn(3)
+		nap := time.Duration(r.Range(20, 200)) * time.Microsecond
+		mk := func(home int) func() *tok {
+			return func() *tok {
+				switch slow {
+				case 1:
+					runtime.Gosched()
+					runtime.Gosched()
+				case 2:
+					time.Sleep(nap)
+				}
+				return &tok{minted: true, home: home}
+			}
+		}
+		pools[0].New, pools[1].New = mk(0), mk(1)
+		c.Count(fmt.Sprintf("pool_rounds_New_kind_%d", slow), 1)
 	}
 	ng, nops := r.Range(2, 16), r.Range(10, 200)
 	type tally struct {
